@@ -68,10 +68,10 @@ def explain(eco, deps, L, extra, missing):
                 known.add("F-C04-4"); extra.remove(e); missing.remove((e[0][:-6], e[1], None))
         for m in list(missing):
             t, form = forms.get((m[0], m[1]), ("", ""))
-            if t.startswith("target."):
-                known.add("F-C04-7"); missing.remove(m)
-            elif form == "subtable":
+            if form == "subtable":
                 known.add("F-C04-8"); missing.remove(m)
+            elif t.startswith("target."):
+                known.add("F-C04-7"); missing.remove(m)
     if eco == "go" and L["trail_ws"]:
         forms = {(d[1], d[2]): d[0] for d in deps}
         for m in list(missing):
@@ -99,6 +99,11 @@ def streams(ctx):
         for t in fuzzgen.documents(rng, eco, n_m):
             if len(t) < 2500 and k < n_m + 400:
                 docs.append((eco, t, "mutated")); k += 1
+    # every shape of alias / JSR specifier, systematically
+    SHAPES = ["x", "x@1.0.0", "@s/x", "@s/x@1.0.0", "@s", "@", "", "@s/x@", "x@", "@s/@1.0.0", "@s/x@1.0.0/sub", "x@1@2", "@s/x/y@1", "é@1.0.0", "@é/x@^1"]
+    for sh in SHAPES:
+        docs.append(("npm", '{"dependencies":{"k":"npm:' + sh + '"}}', "shape"))
+        docs.append(("jsr", '{"imports":{"k":"jsr:' + sh + '"}}', "shape"))
     ca = [{"req": vlib.line("l.parse", e, t), "eco": e, "tag": None} for e, t, _ in docs]
 
     def derive_a(cs, impl):
